@@ -54,11 +54,7 @@ func sweepSeq(r *h.Run) {
 				obs := runSeq(r, base, true)
 				n := obs[len(obs)-1].NOps
 				r.Count(fmt.Sprintf("ops-per-%s:%s", target, kind))
-				step := 1
-				if !r.Thorough() && !r.Deep {
-					step = 1
-				}
-				for k := 0; k < n; k += step {
+				for k := 0; k < n; k++ {
 					tr := obs[len(obs)-1].trace[k]
 					remote := isRemote(tr.Path)
 					for fi, fk := range faultKinds {
